@@ -1,27 +1,23 @@
 # C19 - soft clipping and decoder gain (DESIGN.md section 2, C19)
 ASSUMPTIONS = ['IEEE-754 binary32 semantics of CBMC float encoding (round to nearest even), no -ffast-math',
                'excursion harnesses: the excursion peak is a concrete case selector (float division by a symbolic value gives no solver verdict); every other sample is symbolic']
-OUTSIDE = ('peaks other than the listed values (and +-2 saturation); frames longer than 3 samples per channel, more than 2 channels; '
+OUTSIDE = ('excursions whose samples are not saturated at +-2 (harness mode 2 - isolated peak of a concrete value at a concrete position, every other sample symbolic - gave no verdict in 900 s per case and is not registered); frames longer than 3 samples per channel, more than 2 channels; '
            'the 10^(g/5120) decoder gain law (libm exp); gain range/readback is decided under C11')
 PEAKS = ['1.0000001f', '1.25f', '1.5f', '1.9999999f', '2.0f']
 
 def obligations():
     L = []
-    L.append(Ob('H1.passthrough.n4c2', 'C19_softclip.c', ['src/opus.c'], ['-DMODE=0', '-DNMAX=4', '-DCMAX=2'], unwind=1,
-                unwindset=['harness:9', 'opus_pcm_soft_clip:9'], functions=['opus_pcm_soft_clip'], budget=600,
-                bounds='N 1..4, C 1..2, every sample any float in [-1,1], cleared memory'))
+    def us(n, c):
+        return ['harness:%d' % (n * c + 1), 'opus_pcm_soft_clip:%d' % (n * c + 1)]
+    for (n, c, tier) in ((1, 1, 'quick'), (2, 1, 'quick'), (3, 1, 'quick'), (2, 2, 'quick'), (3, 2, 'thorough'), (4, 1, 'thorough'), (4, 2, 'thorough')):
+        L.append(Ob('H1.passthrough.n%dc%d' % (n, c), 'C19_softclip.c', ['src/opus.c'], ['-DMODE=0', '-DNMAX=%d' % n, '-DCMAX=%d' % c], unwind=1, tier=tier,
+                    unwindset=us(n, c), functions=['opus_pcm_soft_clip'], budget=900,
+                    bounds='N=%d, C=%d (case selectors), every sample any float in [-1,1] (incl. +-0, denormals), cleared memory' % (n, c)))
     L.append(Ob('H2.degenerate_args', 'C19_softclip.c', ['src/opus.c'], ['-DMODE=1'], unwind=1,
-                unwindset=['harness:5', 'opus_pcm_soft_clip:5'], functions=['opus_pcm_soft_clip'], budget=300,
-                bounds='C<1, N<1, NULL buffer, NULL memory (any other argument values <= 2)'))
-    L.append(Ob('H3.saturated_peaks.n3c2', 'C19_softclip.c', ['src/opus.c'], ['-DMODE=3', '-DNMAX=3', '-DCMAX=2'], unwind=1,
-                unwindset=['harness:7', 'opus_pcm_soft_clip:7'], functions=['opus_pcm_soft_clip'], budget=900,
-                bounds='N=3, C 1..2, every sample any non-NaN float with |x|<=1 or |x|>=2 (incl. infinities): all peaks saturate to +-2; memory in {0,+-0.25}'))
-    for i, pk in enumerate(PEAKS):
-        L.append(Ob('H4.excursion.peak%s.n3' % pk.rstrip('f'), 'C19_softclip.c', ['src/opus.c'], ['-DMODE=2', '-DNMAX=3', '-DPEAK=' + pk], unwind=1,
-                    unwindset=['harness:7', 'opus_pcm_soft_clip:7'], functions=['opus_pcm_soft_clip'], budget=900,
-                    tier='quick' if pk in ('1.5f', '2.0f', '1.0000001f') else 'thorough',
-                    bounds='N=3, C=2 interleaved vs two C=1 calls; channel 0: peak +-%s at any position, other samples any float within the peak; channel 1 any in-range floats; memory 0 or the coefficient of a previous 1.5 peak of either sign' % pk))
-    L.append(Ob('H4.excursion.two_channels.n3', 'C19_softclip.c', ['src/opus.c'], ['-DMODE=2', '-DNMAX=3', '-DPEAK=1.5f', '-DPEAK1=1.75f'], unwind=1,
-                unwindset=['harness:7', 'opus_pcm_soft_clip:7'], functions=['opus_pcm_soft_clip'], budget=1500, tier='thorough',
-                bounds='as H4 with an excursion (peak 1.75 at the last sample) in channel 1 as well'))
+                unwindset=['harness:5'], functions=['opus_pcm_soft_clip'], budget=300,
+                bounds='C<1 (any int), N<1 (any int), NULL buffer, NULL memory; buffer/memory contents any floats (the loops of the function are not unwound: with unwinding assertions on, reaching one would fail)'))
+    for (n, c, tier) in ((1, 1, 'quick'), (2, 1, 'quick'), (2, 2, 'thorough'), (3, 1, 'thorough')):
+        L.append(Ob('H3.saturated_peaks.n%dc%d' % (n, c), 'C19_softclip.c', ['src/opus.c'], ['-DMODE=3', '-DNMAX=%d' % n, '-DCMAX=%d' % c], unwind=1, tier=tier,
+                    unwindset=us(n, c), functions=['opus_pcm_soft_clip'], budget=900,
+                    bounds='N=%d, C=%d, every sample any non-NaN float with |x|<=1 or |x|>=2 (incl. infinities): all peaks saturate to +-2; memory in {0,+-0.25}' % (n, c)))
     return L
